@@ -204,7 +204,12 @@ def run(rep, facts, tier):
     rep.check(ok, 'R20.3', 'reader_acked_or_lost/lost-removes', 'None (reader lost) removes the reader from the pending set',
               'a lost reader (acked_before = None) is not removed from the pending set on every path', ra.where())
     t0 = og.of_local(0, ra.return_blocks()[0], 'term')
-    rep.check(term_has(t0, lambda x: x[0] == 'call' and x[1].endswith('is_empty')), 'R20.3', 'reader_acked_or_lost/result',
+    def _is_pending(x):
+        return term_has(x, lambda y: y[0] == 'field' and y[1] == 'readers_pending')
+    res_ok = (t0[0] == 'call' and t0[1].endswith('is_empty') and _is_pending(t0)) or \
+        (t0[0] == 'bin' and t0[1] == 'Eq' and any(a[0] == 'call' and a[1].endswith('::len') and _is_pending(a) for a in t0[2:4]) and
+         any(a[0] == 'const' and str(a[2]) == '0' for a in t0[2:4]))
+    rep.check(res_ok, 'R20.3', 'reader_acked_or_lost/result',
               'returns readers_pending.is_empty()', 'completion is not decided by the pending set being empty', ra.where())
 
     # ---- R20.4 (re-uses the C13 rules on the two C20 sites)
@@ -335,3 +340,7 @@ def rule_20_6(rep, fx):
     rep.check(ok, 'R20.6', 'AsyncWaitForAcknowledgments::poll/result-table', 'Done | token => Ok(true); ended stream => Ok(false)',
               'the asynchronous wait does not report Ok(true) exactly for state Done and for the completion token, and Ok(false) for an ended completion stream '
               '(Ok(true) sites: %d, Ok(false) sites: %d, computed: %d): success is reported without the acknowledgments, or completion is reported as failure' % (len(trues), len(falses), len(other)), b.where())
+
+    # ------------------------------------------------------------ R20.7 the acknowledgment has to be asked for (shared with C02 R02.14)
+    from rules.C02 import rule_heartbeat_solicits
+    rule_heartbeat_solicits(rep, fx, 'R20.7')
